@@ -130,8 +130,8 @@ RelOps == {"sample", "copysign", "is_sign_negative", "is_sign_positive", "is_pos
 Pre(op, N, ES, x) == op = "clamp" => (PLe(N, ES, x[2], x[3]))
 
 \* public operations whose VALUE no listed property constrains (only totality, C16): they must return
-\* normally, whatever they return.  (atan2: quadrant conventions; the rest: outside the properties.)
-UnspecOps == {"exp10", "tanh", "asinh", "acosh", "to_degrees", "to_radians", "sin_cos", "atan2"}
+\* normally, whatever they return.
+UnspecOps == {"exp10", "tanh", "asinh", "acosh", "to_degrees", "to_radians", "sin_cos"}
 
 Accept(op, sp, N, ES, x, r) ==
   IF op \in FnOps THEN r = Fn(op, sp, N, ES, x)
